@@ -11,8 +11,15 @@ import Mathlib.Data.Set.Function
 Every theorem quantifies over **every** index / every valid pair (no bound).  The subjects
 `Generated.C11.*` are re-translated from the current prysm source on every run (whole function bodies,
 including the list building of `noll_to_nm` and the `while` loops of `xy_j_to_mn`); the floating-point
-`ceil(sqrt(.))` idioms are read as the exact integers they denote (validated against NumPy by the
-correspondence run, see harness/c11.py).
+`ceil(sqrt(.))` idioms are read as the exact integers they denote.  Section 3 proves that reading exact over the
+reals, and — for a correctly rounded binary64 square root, arguments below 2^52 — exact for the rounded value as well;
+what remains validated-only (correspondence run, harness/c11.py) is that NumPy's `sqrt` is correctly rounded and that
+the integer-valued double arithmetic around it is exact.  Above 2^52 the real functions leave the convention
+(first at Fringe j = 2^52+1), so "every index" below means: of the exact-arithmetic reading.
+
+When a translator item is `untranslatable` its generated definition defers to `Model.C11`, the corresponding `gen_*`
+obligation is closed by `rfl` and says nothing about the source (the run prints TIE-DEGRADED); the harness then
+replaces the missing tie by a much wider execution sweep.
 
 Section 1 (translated obligations): each generated definition equals the closed form of the convention
 (`Model.C11.*`, written independently of the source) on the whole index set.
@@ -27,11 +34,11 @@ open Model.C11
 
 /-! ## 1. translated obligations: generated definition = closed form, for all inputs in scope -/
 
-/-- `mathops.sign` is `-1` below zero and `+1` otherwise -/
+/-- (pin, no content beyond the generated text) `mathops.sign` is `-1` below zero and `+1` otherwise; fails when the helper is edited -/
 theorem gen_sign (x : Int) : Generated.C11.sign x = if x < 0 then -1 else 1 := by
   simp only [Generated.C11.sign]
 
-/-- `mathops.is_odd` is the parity bit -/
+/-- (pin, no content beyond the generated text) `mathops.is_odd` is the parity bit; fails when the helper is edited -/
 theorem gen_isOdd (x : Int) : Generated.C11.isOdd x = x % 2 := by
   simp only [Generated.C11.isOdd]
 
@@ -253,7 +260,7 @@ theorem gen_xyJToMn_raises (j : Int) (hj : j < 1) : Generated.C11.xyJToMn j = no
 
 /-! ## 2. the property, over the generated definitions -/
 
-/-- `Valid n m` is the usual condition `|m| ≤ n`, `n - |m|` even -/
+/-- (definition bridge) the executable `Valid n m` used in every statement below is the property's wording `|m| ≤ n`, `n - |m|` even -/
 theorem valid_iff (n m : Int) : Valid n m ↔ (|m| ≤ n ∧ 2 ∣ n - |m|) := by
   have : iabs m = |m| := by
     unfold iabs; split
@@ -438,6 +445,13 @@ theorem ansi_n_is_source_formula (j : Nat) :
   simp only
   exact (ansi_row _ (Int.natCast_nonneg j)).symm
 
+/-- the group computed by (the translation of) `fringe_to_nm` is the source formula `n + |m| = 2(⌈√j⌉ - 1)` over the reals -/
+theorem fringe_group_is_source_formula (j : Nat) (hj : 1 ≤ j) :
+    (Generated.C11.fringeToNm (j : Int)).1 + |(Generated.C11.fringeToNm (j : Int)).2|
+      = 2 * (⌈Real.sqrt (j : ℝ)⌉ - 1) := by
+  rw [ceil_sqrt_exact, gen_fringeToNm]
+  exact fringe_group (j : Int) (by exact_mod_cast hj)
+
 /-- the radial order computed by (the translation of) `noll_to_nm` is the source formula `⌈(-1 + √(1 + 8j))/2⌉ - 1` over the reals -/
 theorem noll_n_is_source_formula (j : Nat) (hj : 1 ≤ j) (q : Int × Int)
     (h : Generated.C11.nollToNm (j : Int) = some q) :
@@ -451,6 +465,64 @@ theorem noll_n_is_source_formula (j : Nat) (hj : 1 ≤ j) (q : Int × Int)
   unfold Model.C11.nollToNm
   simp only
   exact (noll_row _ hj').symm
+
+/-! ### the floating-point step itself, over an abstract correctly rounded square root
+
+`fl` stands for rounding to binary64: relative error at most `2^-53`, monotone, exact on the integers up to `2^26`
+(all three hold for IEEE-754 round-to-nearest; they are the hypotheses, `fl = id` shows they are consistent).
+`np.sqrt` is `fl ∘ √` (IEEE requires a correctly rounded square root), `np.ceil` is exact.  Not formalised: that the
+`-3 + y`, `-1 + y`, `/ 2` and the arithmetic on the resulting integer-valued doubles are exact in binary64
+(they are, for these magnitudes, by Sterbenz-type arguments); those steps are taken as real-number operations here. -/
+
+/-- float `ceil(sqrt(D))` is the exact `⌈√D⌉` for every `D < 2^52` (sharp: false for IEEE binary64 at `D = 2^52 + 1`) -/
+theorem float_ceil_sqrt_exact (fl : ℝ → ℝ) (hrel : ∀ x : ℝ, 0 ≤ x → |fl x - x| ≤ x / 2 ^ 53)
+    (hmono : Monotone fl) (hint : ∀ z : ℕ, z ≤ 2 ^ 26 → fl (z : ℝ) = z) (D : ℕ) (hD : D < 2 ^ 52) :
+    ⌈fl (Real.sqrt (D : ℝ))⌉ = pyCeilSqrt (D : Int) := by
+  unfold pyCeilSqrt; rw [float_ceil_sqrt fl hrel hmono hint D hD]; simp
+
+/-- ANSI with the rounded square root: for `9 + 8j < 2^52` the radial order of (the translation of) `ansi_j_to_nm`
+    is `⌈(-3 + fl√(9 + 8j))/2⌉` -/
+theorem ansi_float_formula (fl : ℝ → ℝ) (hrel : ∀ x : ℝ, 0 ≤ x → |fl x - x| ≤ x / 2 ^ 53)
+    (hmono : Monotone fl) (hint : ∀ z : ℕ, z ≤ 2 ^ 26 → fl (z : ℝ) = z) (j : ℕ) (hj : 9 + 8 * j < 2 ^ 52) :
+    (Generated.C11.ansiJToNm (j : Int)).1 = ⌈((-3 : ℝ) + fl (Real.sqrt ((9 + 8 * j : ℕ) : ℝ))) / 2⌉ := by
+  have h := ceil_div_add_real (-3) (fl (Real.sqrt ((9 + 8 * j : ℕ) : ℝ))) 2 (by decide)
+  rw [float_ceil_sqrt_exact fl hrel hmono hint _ hj] at h
+  push_cast at h ⊢
+  rw [h, gen_ansiJToNm _ (Int.natCast_nonneg j)]
+  unfold Model.C11.ansiJToNm
+  simp only
+  exact (ansi_row _ (Int.natCast_nonneg j)).symm
+
+/-- Noll with the rounded square root: for `1 + 8j < 2^52` the radial order of (the translation of) `noll_to_nm`
+    is `⌈(-1 + fl√(1 + 8j))/2⌉ - 1` -/
+theorem noll_float_formula (fl : ℝ → ℝ) (hrel : ∀ x : ℝ, 0 ≤ x → |fl x - x| ≤ x / 2 ^ 53)
+    (hmono : Monotone fl) (hint : ∀ z : ℕ, z ≤ 2 ^ 26 → fl (z : ℝ) = z) (j : ℕ) (hj1 : 1 ≤ j) (hj : 1 + 8 * j < 2 ^ 52)
+    (q : Int × Int) (hq : Generated.C11.nollToNm (j : Int) = some q) :
+    q.1 = ⌈((-1 : ℝ) + fl (Real.sqrt ((1 + 8 * j : ℕ) : ℝ))) / 2⌉ - 1 := by
+  have h := ceil_div_add_real (-1) (fl (Real.sqrt ((1 + 8 * j : ℕ) : ℝ))) 2 (by decide)
+  rw [float_ceil_sqrt_exact fl hrel hmono hint _ hj] at h
+  push_cast at h
+  have hj' : (1 : Int) ≤ j := by exact_mod_cast hj1
+  rw [gen_nollToNm _ hj'] at hq
+  cases hq
+  push_cast
+  rw [h]
+  unfold Model.C11.nollToNm
+  simp only
+  exact (noll_row _ hj').symm
+
+/-- Fringe with the rounded square root: for `1 ≤ j < 2^52` the group of (the translation of) `fringe_to_nm` is
+    `n + |m| = 2 (⌈fl√j⌉ - 1)` -/
+theorem fringe_float_formula (fl : ℝ → ℝ) (hrel : ∀ x : ℝ, 0 ≤ x → |fl x - x| ≤ x / 2 ^ 53)
+    (hmono : Monotone fl) (hint : ∀ z : ℕ, z ≤ 2 ^ 26 → fl (z : ℝ) = z) (j : ℕ) (hj1 : 1 ≤ j) (hj : j < 2 ^ 52) :
+    (Generated.C11.fringeToNm (j : Int)).1 + |(Generated.C11.fringeToNm (j : Int)).2|
+      = 2 * (⌈fl (Real.sqrt (j : ℝ))⌉ - 1) := by
+  rw [float_ceil_sqrt_exact fl hrel hmono hint j hj, gen_fringeToNm]
+  exact fringe_group (j : Int) (by exact_mod_cast hj1)
+
+/-- the hypotheses on `fl` are consistent (exact arithmetic satisfies them) -/
+example : ∃ fl : ℝ → ℝ, (∀ x : ℝ, 0 ≤ x → |fl x - x| ≤ x / 2 ^ 53) ∧ Monotone fl ∧ ∀ z : ℕ, z ≤ 2 ^ 26 → fl (z : ℝ) = z :=
+  ⟨id, fun x hx => by simp; positivity, monotone_id, fun _ _ => rfl⟩
 
 /-! ## non-vacuity: concrete instances -/
 example : Valid 4 (-2) ∧ ¬ Valid 4 3 ∧ ¬ Valid 2 4 := by decide
